@@ -365,12 +365,13 @@ def mini_uic(ui_text, header_name_guard="UI_H"):
     L += ["namespace Ui {", "class %s {" % cls, "public:"]
     for (ctype, name) in members:
         L.append("    %s *%s = nullptr;" % (ctype, name))
-    L.append("    void setupUi(%s *root) {" % root_class)
-    L.append("        root->setObjectName(\"%s\");" % w.attrs.get("name", "root"))
+    # the parameter must not shadow a member (an object may well have the id `root`)
+    L.append("    void setupUi(%s *qv_form_root_) {" % root_class)
+    L.append("        qv_form_root_->setObjectName(\"%s\");" % w.attrs.get("name", "root"))
     cat = catalog.load()
     custom_base = dict(customs)
     for (ctype, name) in members:
         isobj = cat.is_a(custom_base.get(ctype, ctype), "QObject")
-        L.append("        %s = new %s();%s" % (name, ctype, (" %s->setObjectName(\"%s\");" % (name, name)) if isobj else ""))
+        L.append("        this->%s = new %s();%s" % (name, ctype, (" this->%s->setObjectName(\"%s\");" % (name, name)) if isobj else ""))
     L += ["    }", "};", "}", ""]
     return "\n".join(L), cls, root_class, members
